@@ -37,6 +37,8 @@ DECLS = [
     dict(a='bool', b='bool', x=(0, 1), y=(-8, 7)),
     dict(x=(2, 13), y=(-1, 0), z=(-8, -1)),
     dict(a='bool', x=(5, 5), y=(-1, -1), z=(0, 6)),
+    # same width, different encodings / hints: renamings between them (cross-domain obligation)
+    dict(x=(0, 3), y=(-4, -1), z=(0, 2)),
 ]
 
 
@@ -169,6 +171,21 @@ def check_predicates(decl_idx, seeds, backend_note=''):
         x = rnd.choice(names)
         R = exp.export(ctx.let({x + '2': x}, ctx.let({x: x + '2'}, u)))
         decide(f'{x}->{x}2->{x}', R != U, 'let-rename', None, dict(defs={x: x + '2'}, back=True))
+        # ---- renaming onto an identifier with a *different* declaration: either refused, or value-preserving:
+        #      result(a)  <=>  the value of the target in a is representable for the source and u holds with it
+        ints_ = [n for n in names if decl[n] != 'bool']
+        cross = [(x_, y_) for x_ in ints_ for y_ in ints_ if x_ != y_ and decl[x_] != decl[y_]]
+        for x_, y_ in (rnd.sample(cross, min(3, len(cross))) if decl_idx < 4 else cross):
+            try:
+                r_ = ctx.let({x_: y_}, u)
+            except Exception:  # noqa: refusal is the documented outcome for different declarations
+                out.append(core.res(f'let-rename-cross {pid} {x_}->{y_}', 'holds', queries={'refused': 1}, sample=dict(sample0, op='let-rename-cross', case=f'{x_}->{y_}'),
+                                    nontrivial=False, functions=FUNCS))
+                continue
+            tv = link.bv_of(y_, t[y_], bits)
+            want = z3.Or([z3.And(tv == z3.BitVecVal(v, link.W), bsub(U, x_, v)) for v in _vals(t[x_])])
+            decide(f'{x_}->{y_} (declared {decl[x_]} -> {decl[y_]}) accepted', exp.export(r_) != want, 'let-rename-cross', None,
+                   dict(defs={x_: y_}))
         # ---- simultaneous renamings: swap of an identifier with its twin, in both dict orders, on a predicate
         #      that depends on both (a sequential implementation maps both onto one identifier)
         for x in rnd.sample(names, min(2, len(names))):
@@ -416,6 +433,16 @@ def replay(payload):
             want = ev(dict(sigma, **{k: sigma[v] for k, v in c['defs'].items()}))
         got = truth(r, sigma)
         return got != want, f'let({c["defs"]}) at {sigma}: {got}, set semantics: {want}'
+    if op == 'let-rename-cross':
+        (x_, y_), = c['defs'].items()
+        try:
+            r = ctx.let(c['defs'], u)
+        except Exception:  # noqa
+            return False, 'renaming refused'
+        got = truth(r, sigma)
+        want = sigma[y_] in _vals(ctx.vars[x_]) and ev(dict(sigma, **{x_: sigma[y_]}))
+        return got != want, (f'let({c["defs"]}) between different declarations was accepted; at {sigma} the result is {got}, '
+                             f'renaming the value gives {want}')
     if op == 'replace_with_bdd' and c.get('two_keys'):
         b1, b2 = c['b1'], c['b2']
         g1t, g2t = tuple_tree(c['g1']), tuple_tree(c['g2'])
